@@ -154,7 +154,7 @@ fn one_dev<P: Protocol>(run: u64, stream: u64, mode: Mode, steps: u64, focus: &s
         }
     }
     sim.deliver_due();
-    if focus == "C09" && !plain_run && run % 2 == 0 {
+    if (focus == "C09" || focus == "C12" || focus == "C05") && !plain_run && run % 2 == 0 {
         // while the initiators still hold their finished handshake objects (60 s): every handshake datagram captured so far
         // presented to every node from every node's address (an outsider needs no key for that)
         for _ in 0..2 {
